@@ -1,5 +1,7 @@
 package sqlgen
 
+import "github.com/ajitpratap0/GoSQLX/pkg/sql/ast"
+
 // The enumerated spaces.  Everything here is deterministic and complete for the
 // bound it states; nothing is sampled.
 
@@ -140,6 +142,15 @@ func RepExprs(yield func(name string, x X)) {
 	yield("false", Bool("FALSE"))
 	yield("null", Null())
 	yield("placeholder-dollar", Placeholder("$1"))
+	yield("quoted-ident", QuotedCol("c 1"))
+	yield("quoted-reserved", QuotedCol("select"))
+	yield("quoted-qualified", X{Toks: []Tok{pt("t0"), pt("."), pt(`"c d"`)}, Full: []Tok{pt("t0"), pt("."), pt(`"c d"`)}, N: &ast.Identifier{Name: "c d", Table: "t0"}, P: PPrimary,
+		Feat: []string{"expr.quoted-identifier", "expr.qualified-column"}, Names: []Name{{Role: "column", Name: "c d", Qual: "t0"}}})
+	yield("unicode-ident", Col("名前"))
+	yield("number-leading-zero", Int("007"))
+	yield("float-exp-neg", Float("1.5E-3"))
+	yield("string-empty", Str(""))
+	yield("string-unicode", Str("naïve ☃"))
 	yield("add", Bin("+", Col("c1"), Int("1")))
 	yield("mul-add", Bin("+", Bin("*", Col("c1"), Col("c2")), Int("1")))
 	yield("add-mul-parens", Bin("*", Bin("+", Col("c1"), Col("c2")), Int("2")))
@@ -726,6 +737,17 @@ func DMLCases(yield func(name string, s S)) {
 	yield("merge-noalias", Mrg{Target: "t1", Source: "t2", On: Bin("=", QCol("t1", "c1"), QCol("t2", "c1")), Whens: whens[:1]}.Build())
 }
 
+// HoleShapes yields every hole filled with every one-operator expression.
+func HoleShapes(yield func(hole string, s S)) {
+	for _, h := range Holes() {
+		h := h
+		if h.Arith {
+			continue
+		}
+		Shapes1(func(x X) { yield(h.Name, h.Fill(x)) })
+	}
+}
+
 // All yields the whole statement space for a tier, smallest sections first.
 // The name is "section/sub"; statements may repeat across sections (callers de-duplicate).
 func All(thorough bool, yield func(name string, s S)) {
@@ -737,6 +759,7 @@ func All(thorough bool, yield func(name string, s S)) {
 	Shapes2(func(x X) { yield("shape2/where", selWhere(x)); yield("shape2/item", selItem(x)) })
 	SelectClauseSubsets(func(m int, s S) { yield("subsets/select", s) })
 	StmtHoles(1, func(n string, s S) { yield("nest/"+n, s) })
+	HoleShapes(func(h string, s S) { yield("holeshape/"+h, s) })
 	ShapesN(3, func(x X) { yield("shape3/where", selWhere(x)) })
 	if thorough {
 		StmtHoles(2, func(n string, s S) { yield("nest2/"+n, s) })
